@@ -62,15 +62,16 @@ Section Sound.
     | MWith | MOff | MAbove | MBelow | MFork | MBracket | MTry | MDipN _
     | MReduce | MScan | MFold | MRows | MEach | MInventory | MTable | MTuples | MGroup | MPartition
     | MSpawn | MPool | MRepeat | MRepeatWithInverse | MStencil | MReduceContent | MReduceDepth _
-    | MHandleSig | MDo => true
+    | MHandleSig | MDo | MUndoRows | MUndoInventory => true
     | _ => false end.
   (** modifiers checked in context whose run-time form uses the stored signature *)
   Definition needs_exact (mk : modk) : bool :=
-    match mk with MBy | MRows | MEach | MInventory | MRepeat | MRepeatWithInverse => true | _ => false end.
+    match mk with MBy | MRows | MEach | MInventory | MRepeat | MRepeatWithInverse | MUndoRows | MUndoInventory => true | _ => false end.
   Definition is_iter (mk : modk) : bool :=
     match mk with
     | MReduce | MScan | MFold | MRows | MEach | MInventory | MTable | MTuples | MGroup | MPartition
-    | MSpawn | MPool | MRepeat | MStencil | MReduceContent | MReduceDepth _ | MHandleSig => true
+    | MSpawn | MPool | MRepeat | MStencil | MReduceContent | MReduceDepth _ | MHandleSig
+    | MUndoRows | MUndoInventory => true
     | _ => false end.
 
   (** the tree invariant the compiler is expected to establish (validated on real compiler
@@ -456,7 +457,24 @@ Section Sound.
     - (* ReduceDepth *) inversion Hv; subst; clear Hv. cbn [handle_ao fst snd] in *.
       apply iter_exec_post; auto; try (eapply body_frames_of_framed; eauto).
     - (* ReduceContent *) inversion Hv; subst; clear Hv. cbn [handle_ao fst snd] in *.
-      apply iter_exec_post; auto; try (eapply body_frames_of_framed; eauto).    - (* HandleSig: subscripted table, sided tuples, reduce-conjoin-inventory *)
+      apply iter_exec_post; auto; try (eapply body_frames_of_framed; eauto).
+    - (* UndoRows *)
+      specialize (Hex eq_refl). inversion Hex as [|? ? (e0 & V0 & Es) _]; subst; cbn [fst snd] in *.
+      assert (S1p : wfe (epop 1 (sk, un))).
+      { split; cbn [epop fst snd]; [apply wfv_vpop|]; eapply sim_nonneg; eauto. }
+      rewrite (vnode_ctx f (S d) (epop 1 (sk, un)) e' e0 S1p Hv V0) in *.
+      rewrite Es in *. unfold epop in *. cbn [fst snd] in *.
+      rewrite (handle_sig_noU sg (vpop 1 sk) un _ _ U1 U2 S2) in *. cbn [fst snd] in *.
+      rewrite vao_vpop1 in *. apply iter_exec_post; auto; try (eapply body_frames_of_framed; eauto).
+    - (* UndoInventory *)
+      specialize (Hex eq_refl). inversion Hex as [|? ? (e0 & V0 & Es) _]; subst; cbn [fst snd] in *.
+      assert (S1p : wfe (epop 1 (sk, un))).
+      { split; cbn [epop fst snd]; [apply wfv_vpop|]; eapply sim_nonneg; eauto. }
+      rewrite (vnode_ctx f (S d) (epop 1 (sk, un)) e' e0 S1p Hv V0) in *.
+      rewrite Es in *. unfold epop in *. cbn [fst snd] in *.
+      rewrite (handle_sig_noU sg (vpop 1 sk) un _ _ U1 U2 S2) in *. cbn [fst snd] in *.
+      rewrite vao_vpop1 in *. apply iter_exec_post; auto; try (eapply body_frames_of_framed; eauto).
+    - (* HandleSig: subscripted table, sided tuples, reduce-conjoin-inventory *)
       inversion Hv; subst; clear Hv.
       rewrite (handle_sig_noU sg sk un _ _ U1 U2 S2) in *. cbn [fst snd] in *.
       apply iter_exec_post; auto.
